@@ -471,7 +471,11 @@ def run(R):
             if bd.kind == 'promoted' or bd.path == b.path:
                 continue
             for bb2, t in bd.calls(pat='h2::Error::reason'):
-                others.append(bd.path)
+                # reading the reason only to hand it to the one table is not a second table
+                fed = [1 for bb3, t3 in bd.calls(pat=b.path.split('::')[-1])
+                       if any(mentions_call(bd.origin(a), pat='h2::Error::reason') for a in t3['args'])]
+                if not fed:
+                    others.append(bd.path)
         R.check(not others, 'C04.R7', 'single-table', '', 'other bodies reading h2::Error::reason: %r' % others)
         th = tonic.body('status::Status::to_h2_error')
         R.saw(th)
